@@ -179,6 +179,15 @@ pub struct Dir {
     /// everything sent from now on is silently lost
     pub blackhole: bool,
     pub sink_closed: bool,
+    /// the sender's sink is not writable from now on (a peer that stopped reading: buffers full, no error): poll_ready, poll_flush
+    /// and poll_close stay Pending
+    pub wedged: bool,
+    /// buffering transport: poll_flush / poll_close complete only once everything sent has been delivered (a real WebSocket over
+    /// a slow link flushes its write buffer there), and a WebSocket object that is DROPPED before its close completed loses what
+    /// was not delivered yet
+    pub flush_waits: bool,
+    pub close_done: bool,
+    pub flush_waker: Option<Waker>,
     /// receiver already got Close/Eof/Err: stream terminated
     pub recv_terminated: bool,
     pub recv_waker: Option<Waker>,
@@ -194,6 +203,10 @@ impl Dir {
             sink_err: false,
             blackhole: false,
             sink_closed: false,
+            wedged: false,
+            flush_waits: false,
+            close_done: false,
+            flush_waker: None,
             recv_terminated: false,
             recv_waker: None,
             send_waker: None,
@@ -231,6 +244,20 @@ pub struct SimWs {
     pub log: Log,
 }
 
+impl Drop for SimWs {
+    fn drop(&mut self) {
+        let mut l = self.link.0.lock().unwrap();
+        let d = &mut l.dir[self.side];
+        if d.flush_waits && !d.close_done && !d.inflight.is_empty() {
+            let n = d.inflight.len();
+            d.inflight.clear();
+            self.log.push(Ev::Fault(format!("side {} dropped its WebSocket before the close had completed: {n} buffered messages were never transmitted", self.side)));
+            // the transport is gone: the peer sees the stream end
+            d.inflight.push_back(Item::Eof);
+        }
+    }
+}
+
 fn ws_err(what: &str) -> penguin_mux::Error {
     penguin_mux::Error::WebSocket(Box::new(std::io::Error::new(std::io::ErrorKind::ConnectionReset, what.to_string())))
 }
@@ -245,6 +272,10 @@ impl WebSocket for SimWs {
         }
         if d.sink_closed {
             return Poll::Ready(Err(ws_err("sink already closed")));
+        }
+        if d.wedged {
+            d.send_waker = Some(cx.waker().clone());
+            return Poll::Pending;
         }
         if let Some(c) = d.cap {
             if d.inflight.len() >= c {
@@ -282,22 +313,33 @@ impl WebSocket for SimWs {
         Ok(())
     }
 
-    fn poll_flush_unpin(&mut self, _cx: &mut Context<'_>) -> Poll<Result<(), penguin_mux::Error>> {
-        let l = self.link.0.lock().unwrap();
-        if l.dir[self.side].sink_err {
+    fn poll_flush_unpin(&mut self, cx: &mut Context<'_>) -> Poll<Result<(), penguin_mux::Error>> {
+        let mut l = self.link.0.lock().unwrap();
+        let d = &mut l.dir[self.side];
+        if d.sink_err {
             self.log.push(Ev::SinkErrorSeen { side: self.side });
             return Poll::Ready(Err(ws_err("sink failed")));
+        }
+        if d.wedged || (d.flush_waits && !d.inflight.is_empty()) {
+            d.flush_waker = Some(cx.waker().clone());
+            return Poll::Pending;
         }
         Poll::Ready(Ok(()))
     }
 
-    fn poll_close_unpin(&mut self, _cx: &mut Context<'_>) -> Poll<Result<(), penguin_mux::Error>> {
+    fn poll_close_unpin(&mut self, cx: &mut Context<'_>) -> Poll<Result<(), penguin_mux::Error>> {
         let mut l = self.link.0.lock().unwrap();
         let d = &mut l.dir[self.side];
         if d.sink_err {
             d.sink_closed = true;
             return Poll::Ready(Err(ws_err("sink failed")));
         }
+        if d.wedged || (d.flush_waits && !d.sink_closed && !d.inflight.is_empty()) {
+            // the close has to flush first
+            d.flush_waker = Some(cx.waker().clone());
+            return Poll::Pending;
+        }
+        d.close_done = true;
         if !d.sink_closed {
             d.sink_closed = true;
             let lost = d.blackhole;
